@@ -1,6 +1,7 @@
 SPECIFICATION GSpec
 CONSTANTS
   Params = {"p1", "p2"}
+  Mod2 = {}
   Vals = {"a", "b"}
   Errs = {"e1", "e2"}
   Invs = {"i1"}
@@ -9,6 +10,7 @@ CONSTANTS
   InitStamps = {0}
   NoDefault = {"p1"}
   InitScopeSets = {{}, {"all"}}
+  HiddenChoices = {{}}
   ActScopes = {"all"}
   MaxNow = 6
   Depth = 3
